@@ -228,6 +228,10 @@ def contains(engine, st, c, x):
     elif k == "dict":
         st, bx = engine.boxed(st, x)
         yield st, c.t[0][bx]
+    elif k == "graph":
+        # `n in G` is G.has_node(n)
+        st, bx = engine.boxed(st, x)
+        yield st, c.t[0][bx]
     elif k == "list" and c.origin is not None and c.origin[0] == "set":
         st, bx = engine.boxed(st, x)
         yield st, c.origin[1][bx]  # the list enumerates exactly this set
